@@ -1,5 +1,6 @@
 from __future__ import annotations
 from collections import defaultdict
+import re
 import warnings
 from pathlib import Path
 from typing import overload
@@ -304,11 +305,25 @@ def gotran_to_myokit(ode: ODE, time_component="engine", time_unit="s") -> myokit
         sp.Symbol("time"): qsymbol(f"{time_component}.time"),
         ode.t: qsymbol(f"{time_component}.time"),
     }
+    # Component names in an .ode file can be any string (e.g. "L_type Ca current"
+    # or the empty name of the default component), while myokit only accepts
+    # names of the form [a-zA-Z][a-zA-Z0-9_]*
+    component_names: dict[str, str] = {}
+    for component in ode.components:
+        name = re.sub(r"[^a-zA-Z0-9_]", "_", component.name)
+        if not name or not name[0].isalpha():
+            name = f"component_{name}"
+        while name in component_names.values() or (
+            name == time_component and component.name != time_component
+        ):
+            name += "_"
+        component_names[component.name] = name
+
     for component in ode.components:
         if component.name == time_component:
             comp = model[time_component]
         else:
-            comp = model.add_component(component.name)
+            comp = model.add_component(component_names[component.name])
 
         for state_derivative in component.state_derivatives:
             state = state_derivative.state
@@ -333,7 +348,7 @@ def gotran_to_myokit(ode: ODE, time_component="engine", time_unit="s") -> myokit
     sympy_reader = SymPyExpressionReader(model=model)
     # Then we can add expressions
     for component in ode.components:
-        comp = model[component.name]
+        comp = model[component_names[component.name]]
 
         for state_derivative in component.state_derivatives:
             state = state_derivative.state
